@@ -266,6 +266,10 @@ func runC16(w *mon.W) {
 			sb.WriteString("\n")
 		}
 		listing := sb.String()
+		if k%4 == 3 {
+			listing = strings.TrimRight(listing, "\n") // a file whose last line is not terminated
+			w.Add("listings_without_final_newline", 1)
+		}
 		w.Begin(id, listing)
 		nontriv := false
 		for _, rec := range recs {
